@@ -361,9 +361,23 @@ def obligation_prop_ok(w, prop, meta, cfg=None):
     return allowed is None or kind in allowed
 
 
-def find_witness(prop, cfg, violation, repo):
+def witness_is_known(w, known):
+    """a driver witness that a `finding:` line of known_findings.txt describes (same matching as run_stages)"""
+    return any(k['obligation'] == w['obligation'] and (k['at'] == '*' or k['at'] == w['input'] or (k['at'].startswith('class=') and (' ' + k['at']) in (' ' + w['input']))) for k in (known or []))
+
+
+def load_aliases():
+    try:
+        with open(os.path.join(ROOT, 'drivers', 'witness_aliases.json')) as f:
+            return {k: v for k, v in json.load(f).items() if isinstance(v, list)}
+    except Exception:
+        return {}
+
+
+def find_witness(prop, cfg, violation, repo, known_all=None):
     """A Verus obligation failed: run the bounded driver that covers the same function (if any)
-    and return the first concrete failing input it finds."""
+    and return the first concrete failing input it finds.  Inputs that a recorded finding already describes
+    (they fail on the unchanged tree too) are no evidence for THIS failure and are skipped."""
     fn = (violation.get('function') or '').split('::')[-1]
     try:
         w = kani_witness(fn, repo)
@@ -371,8 +385,9 @@ def find_witness(prop, cfg, violation, repo):
             return w
     except Exception:
         pass
+    names = [fn] + load_aliases().get(fn, [])
     try:
-        groups = [g for g in load_groups() if fn in g.get('fns', {})]
+        groups = [g for g in load_groups() if any(n in g.get('fns', {}) for n in names)]
     except Exception:
         return None
     if not groups:
@@ -384,7 +399,7 @@ def find_witness(prop, cfg, violation, repo):
         for g in groups:
             r = run_driver_group(g, repo, 0)
             for w in r['witnesses']:
-                if w['fn'] == fn:
+                if w['fn'] in names and not witness_is_known(w, known_all):
                     w['found_by'] = r['cmd']
                     return w
     except Exception as e:  # witness search is best effort
